@@ -1,7 +1,9 @@
 (* C09 — reported dimension = dimension of the reported name (proved here for every
-   list of canonical graphs); = |commutator closure| is validated per input against the
-   verified closure oracle (it rests on C01). *)
-From PauLie Require Import Star StarT.
+   list of canonical graphs); = |commutator closure| is PROVED for every canonical graph with a single leg and at most
+   10 vertices, for every independent list of generators with that anticommutation graph on any number of qubits
+   (C09_census_is_closure_size: standard realisation enumerated in the kernel + Theory/GraphDetT.v), and validated per
+   input against the verified closure oracle beyond that. *)
+From PauLie Require Import Pauli Sym ClSym Star StarT GraphDetT CensusT.
 Open Scope Z_scope.
 
 (* repaired get_dla_dim: for every list of leg-length vectors whose single-leg counts are >= 1
@@ -11,6 +13,19 @@ Theorem C09_name : forall morphs terms d,
   2 * d = name_dim2 terms.
 Proof. exact dla_dim_is_name_dim. Qed.
 Print Assumptions C09_name.
+
+(* the census dimension IS the number of strings of the commutator closure: for each of the 56 canonical stars with a
+   single leg and at most 10 vertices (legs listed as in canon_stars 10; vertex 0 the centre, then leg after leg from
+   the centre outwards), and EVERY independent generator list with that anticommutation graph *)
+Theorem C09_census_is_closure_size : forall ls, In ls (canon_stars 10) ->
+  forall gs : list P, length gs = S (list_sum ls) ->
+  (forall i j, (i < length gs)%nat -> (j < length gs)%nat -> anti (nth i gs pid) (nth j gs pid) = star_adj ls i j) ->
+  independent gs ->
+  exists LP d, census_dim ls = COk d /\ NoDup LP /\ (forall p, In p LP <-> ClS (fun g => In g gs) p) /\ Z.of_nat (length LP) = d.
+Proof. exact census_is_closure_size. Qed.
+Print Assumptions C09_census_is_closure_size.
+Example C09_census_example : In [1; 2; 3]%nat (canon_stars 10) /\ census_dim [1; 2; 3]%nat = COk 63 /\ length (canon_stars 10) = 56%nat.
+Proof. vm_compute. repeat split. right; right; right; right; right; right; right; right. left. reflexivity. Qed.
 
 (* the pinned snapshot's get_dla_dim refuted on the model of that code: 2*so(3) reported 3, u(1) reported 0 *)
 Theorem C09_refuted_snapshot :
